@@ -133,6 +133,7 @@ static Verdict check_grad(const Program &P, Stats &st) {
 }
 
 #include "prog_batch_api.h"
+#include "prog_backend.h"
 // MODE-FUNCTIONS-HERE
 
 // =================================================================== driver
@@ -149,6 +150,7 @@ static Verdict check(const string &mode, const Program &P, Stats &st) {
   if (mode == "grad") return check_grad(P, st);
   if (mode == "batch") return check_batch(P, st);
   if (mode == "api") return check_api(P, st);
+  if (mode == "backend") return check_backend(P, st);
   // MODE-DISPATCH-HERE
   return Verdict::F("bad-mode " + mode);
 }
@@ -221,7 +223,13 @@ int main(int argc, char **argv) {
     }
     fclose(f);
   } else if (mode == "conv") {
-    // CONV-MAIN-HERE
+    Rng rng(seed * 1000003ull + 77);
+    for (long i = 0; i < n; ++i) {
+      st.programs++; string desc; Verdict v;
+      try { v = check_conv_case(rng, st, desc); } catch (Error &e) { v = Verdict::F(string("uncaught-error ") + e.what()); }
+      if (v.fail) { st.fail++; printf("FAIL conv %s :: %s\n", desc.c_str(), v.what.c_str()); }
+      else { st.ok++; st.nontrivial++; st.hist["conv"]++; st.hist["maxpool"]++; printf("ok\n"); }
+    }
   } else {
     uint64_t mh = 0; for (char c : mode) mh = mh * 131 + (unsigned char)c;
     Rng rng(seed * 1000003ull + mh % 1000);
